@@ -186,4 +186,464 @@ theorem val_split : ∀ (l : List Nat), Limbs l → ∃ r, val l = l.getD 0 0 + 
   | [], _ => ⟨0, by simp, by simp [B_pos]⟩
   | x :: xs, h => ⟨val xs, by simp, by simpa using (Limbs_cons.mp h).1⟩
 
+/-! ### shifts and bit lengths -/
+
+theorem two_pow_pos (k : Nat) : 0 < 2 ^ k := Nat.pow_pos (by decide)
+
+theorem shiftZ_nonneg (v : Nat) {k : Int} (h : 0 ≤ k) : shiftZ v k = v * 2 ^ k.toNat := by
+  unfold shiftZ; rw [if_pos h, Nat.shiftLeft_eq]
+theorem shiftZ_neg (v : Nat) {k : Int} (h : k < 0) : shiftZ v k = v / 2 ^ (-k).toNat := by
+  unfold shiftZ; rw [if_neg (by omega), Nat.shiftRight_eq_div_pow]
+
+/-- floor (floor (v·2^a) / 2^b) = floor (v·2^(a-b)) -/
+theorem shiftZ_shiftRight (v : Nat) (a : Int) (b : Nat) : (shiftZ v a) >>> b = shiftZ v (a - b) := by
+  rw [Nat.shiftRight_eq_div_pow]
+  by_cases ha : 0 ≤ a
+  · rw [shiftZ_nonneg v ha]
+    by_cases hb : (b : Int) ≤ a
+    · rw [shiftZ_nonneg v (by omega)]
+      have : a.toNat = (a - b).toNat + b := by omega
+      rw [this, pow_add, ← Nat.mul_assoc, Nat.mul_div_cancel _ (two_pow_pos b)]
+    · rw [shiftZ_neg v (by omega)]
+      have : b = a.toNat + (-(a - b)).toNat := by omega
+      rw [this, pow_add, Nat.mul_comm v, Nat.mul_div_mul_left _ _ (two_pow_pos _)]
+      congr 2; omega
+  · rw [shiftZ_neg v (by omega), shiftZ_neg v (by omega), Nat.div_div_eq_div_mul, ← pow_add]
+    congr 2; omega
+
+theorem bitlen_pos {v : Nat} (h : v ≠ 0) : bitlen v = Nat.log2 v + 1 := by unfold bitlen; rw [if_neg h]
+
+theorem bitlen_bounds {v : Nat} (h : v ≠ 0) : 2 ^ (bitlen v - 1) ≤ v ∧ v < 2 ^ bitlen v := by
+  rw [bitlen_pos h]; exact ⟨Nat.log2_self_le h, Nat.lt_log2_self⟩
+
+theorem bitlen_eq {v k : Nat} (h1 : 2 ^ k ≤ v) (h2 : v < 2 ^ (k + 1)) : bitlen v = k + 1 := by
+  have hv : v ≠ 0 := by have := two_pow_pos k; omega
+  rw [bitlen_pos hv, (Nat.log2_eq_iff hv).mpr ⟨h1, h2⟩]
+
+/-- the 53 leading bits of v (exact scaling up when v is shorter): in [2^52, 2^53) -/
+theorem top53_bounds {v : Nat} (h : v ≠ 0) :
+    2 ^ 52 ≤ shiftZ v (53 - (bitlen v : Int)) ∧ shiftZ v (53 - (bitlen v : Int)) < 2 ^ 53 := by
+  obtain ⟨l, u⟩ := bitlen_bounds h
+  have hL : 1 ≤ bitlen v := by rw [bitlen_pos h]; omega
+  generalize bitlen v = L at *
+  by_cases c : (L : Int) ≤ 53
+  · rw [shiftZ_nonneg v (by omega)]
+    have e : (53 - (L : Int)).toNat = 53 - L := by omega
+    rw [e]
+    have p1 : 2 ^ (L - 1) * 2 ^ (53 - L) = 2 ^ 52 := by rw [← pow_add]; congr 1; omega
+    have p2 : 2 ^ L * 2 ^ (53 - L) = 2 ^ 53 := by rw [← pow_add]; congr 1; omega
+    have := two_pow_pos (53 - L)
+    constructor
+    · rw [← p1]; exact Nat.mul_le_mul_right _ l
+    · rw [← p2]; exact Nat.mul_lt_mul_of_pos_right u this
+  · rw [shiftZ_neg v (by omega)]
+    have e : (-(53 - (L : Int))).toNat = L - 53 := by omega
+    rw [e]
+    have p1 : 2 ^ 52 * 2 ^ (L - 53) = 2 ^ (L - 1) := by rw [← pow_add]; congr 1; omega
+    have p2 : 2 ^ 53 * 2 ^ (L - 53) = 2 ^ L := by rw [← pow_add]; congr 1; omega
+    constructor
+    · rw [Nat.le_div_iff_mul_le (two_pow_pos _), p1]; exact l
+    · rw [Nat.div_lt_iff_lt_mul (two_pow_pos _), p2]; exact u
+
+/-! ### the two high limbs of a limb vector -/
+
+theorem val_top_split : ∀ (l : List Nat), Limbs l → l ≠ [] →
+    ∃ lo, val l = lo + B ^ (l.length - 1) * l.getD (l.length - 1) 0 ∧ lo < B ^ (l.length - 1)
+  | [], _, h => absurd rfl h
+  | [x], _, _ => ⟨0, by simp, by simp⟩
+  | x :: y :: ys, h, _ => by
+    have ⟨hx, hr⟩ := Limbs_cons.mp h
+    obtain ⟨lo, e, b⟩ := val_top_split (y :: ys) hr (by simp)
+    refine ⟨x + B * lo, ?_, ?_⟩
+    · simp only [List.length_cons, Nat.add_sub_cancel] at e ⊢
+      rw [val_cons, e, List.getD_cons_succ, pow_succ]; ring
+    · simp only [List.length_cons, Nat.add_sub_cancel] at b ⊢
+      rw [pow_succ]; nlinarith [B_pos]
+
+theorem val_top2_split : ∀ (l : List Nat), Limbs l → 2 ≤ l.length →
+    ∃ lo, val l = lo + B ^ (l.length - 2) * (l.getD (l.length - 2) 0 + B * l.getD (l.length - 1) 0) ∧ lo < B ^ (l.length - 2)
+  | [], _, h => by simp at h
+  | [_], _, h => by simp at h
+  | [x, y], _, _ => ⟨0, by simp, by simp⟩
+  | x :: y :: z :: zs, h, _ => by
+    have ⟨hx, hr⟩ := Limbs_cons.mp h
+    obtain ⟨lo, e, b⟩ := val_top2_split (y :: z :: zs) hr (by simp)
+    refine ⟨x + B * lo, ?_, ?_⟩
+    · simp only [List.length_cons] at e ⊢
+      have i1 : zs.length + 1 + 1 + 1 - 2 = (zs.length + 1 + 1 - 2) + 1 := by omega
+      have i2 : zs.length + 1 + 1 + 1 - 1 = (zs.length + 1 + 1 - 1) + 1 := by omega
+      rw [val_cons, e, i1, i2, List.getD_cons_succ, List.getD_cons_succ, pow_succ]; ring
+    · simp only [List.length_cons] at b ⊢
+      have i1 : zs.length + 1 + 1 + 1 - 2 = (zs.length + 1 + 1 - 2) + 1 := by omega
+      rw [i1, pow_succ]; nlinarith [B_pos]
+
+theorem top_ne_zero {l : List Nat} (hne : l ≠ []) (ht : TopNZ l) : l.getD (l.length - 1) 0 ≠ 0 := by
+  have := ht hne
+  rw [List.getLast?_eq_getElem?] at this
+  intro e
+  apply this
+  have hlt : l.length - 1 < l.length := by
+    cases l with | nil => exact absurd rfl hne | cons _ _ => simp
+  rw [List.getD_eq_getElem?_getD, List.getElem?_eq_getElem hlt] at e
+  rw [List.getElem?_eq_getElem hlt]; simpa using e
+
+theorem top_lt_B {l : List Nat} (h : Limbs l) (i : Nat) : l.getD i 0 < B := by
+  rw [List.getD_eq_getElem?_getD]
+  cases hi : l[i]? with
+  | none => simpa using B_pos
+  | some x => simp only [Option.getD_some]; exact h x (List.mem_of_getElem? hi)
+
+theorem B_eq_two_pow : B = 2 ^ 64 := rfl
+theorem Bpow_eq (k : Nat) : B ^ k = 2 ^ (64 * k) := by rw [B_eq_two_pow, ← pow_mul]
+
+/-- bit length of a normalised limb vector: 64·size - count_leading_zeros (high limb) -/
+theorem bitlen_val {l : List Nat} (hL : Limbs l) (hne : l ≠ []) (ht : TopNZ l) :
+    bitlen (val l) = 64 * l.length - clz64 (l.getD (l.length - 1) 0) ∧ clz64 (l.getD (l.length - 1) 0) ≤ 63 := by
+  obtain ⟨lo, e, b⟩ := val_top_split l hL hne
+  have tnz := top_ne_zero hne ht
+  have tlt := top_lt_B hL (l.length - 1)
+  have hn : 1 ≤ l.length := by cases l with | nil => exact absurd rfl hne | cons _ _ => simp
+  generalize l.getD (l.length - 1) 0 = top at *
+  have k1 := Nat.log2_self_le tnz
+  have k2 := @Nat.lt_log2_self top
+  have k3 : top.log2 < 64 := (Nat.log2_lt tnz).mpr (by rw [← B_eq_two_pow]; exact tlt)
+  unfold clz64
+  refine ⟨?_, by omega⟩
+  rw [Bpow_eq] at e b
+  have : bitlen (val l) = (64 * (l.length - 1) + top.log2) + 1 := by
+    apply bitlen_eq
+    · rw [e, pow_add]
+      have := Nat.mul_le_mul_left (2 ^ (64 * (l.length - 1))) k1
+      omega
+    · rw [e, pow_succ, pow_add]
+      have h2 : top + 1 ≤ 2 ^ top.log2 * 2 := by rw [← pow_succ]; omega
+      have := Nat.mul_le_mul_left (2 ^ (64 * (l.length - 1))) h2
+      have e2 : 2 ^ (64 * (l.length - 1)) * (top + 1) = 2 ^ (64 * (l.length - 1)) * top + 2 ^ (64 * (l.length - 1)) := by ring
+      rw [← Nat.mul_assoc] at this
+      omega
+  rw [this]; omega
+
+/-! ### mpn_get_d: the shifted high limbs are the 53 leading bits (get_d.c:129-145) -/
+
+theorem getd_m53 {l : List Nat} (hL : Limbs l) (hne : l ≠ []) (ht : TopNZ l) :
+    ((((l.getD (l.length - 1) 0 <<< clz64 (l.getD (l.length - 1) 0)) % B) |||
+        (((if l.length ≥ 2 then l.getD (l.length - 2) 0 else 0) >>> (64 - clz64 (l.getD (l.length - 1) 0))) &&&
+          (if clz64 (l.getD (l.length - 1) 0) = 0 then 0 else B - 1))) >>> 11)
+      = shiftZ (val l) (53 - (bitlen (val l) : Int)) := by
+  obtain ⟨hbl, hls⟩ := bitlen_val hL hne ht
+  have tnz := top_ne_zero hne ht
+  have tlt := top_lt_B hL (l.length - 1)
+  have m1lt : (if l.length ≥ 2 then l.getD (l.length - 2) 0 else 0) < B := by
+    split
+    · exact top_lt_B hL _
+    · exact B_pos
+  have hn : 1 ≤ l.length := by cases l with | nil => exact absurd rfl hne | cons _ _ => simp
+  -- the window value t64 = shiftZ v (64 - L)
+  have key : (l.getD (l.length - 1) 0) * 2 ^ clz64 (l.getD (l.length - 1) 0) +
+      (if l.length ≥ 2 then l.getD (l.length - 2) 0 else 0) / 2 ^ (64 - clz64 (l.getD (l.length - 1) 0))
+      = shiftZ (val l) (64 - (bitlen (val l) : Int)) := by
+    rw [hbl]
+    by_cases h2 : l.length ≥ 2
+    · obtain ⟨lo, e, b⟩ := val_top2_split l hL h2
+      rw [if_pos h2]
+      generalize l.getD (l.length - 1) 0 = top at *
+      generalize l.getD (l.length - 2) 0 = m1 at *
+      generalize clz64 top = ls at *
+      rw [shiftZ_neg _ (by omega)]
+      have ex : (-(64 - ((64 * l.length - ls : Nat) : Int))).toNat = 64 * (l.length - 2) + (64 - ls) := by omega
+      rw [ex, pow_add, ← Bpow_eq, ← Nat.div_div_eq_div_mul, e, Nat.add_mul_div_left _ _ (Bpow_pos _),
+        Nat.div_eq_of_lt b, Nat.zero_add]
+      have hB : B = 2 ^ (64 - ls) * 2 ^ ls := by rw [← pow_add, B_eq_two_pow]; congr 1; omega
+      have : m1 + B * top = m1 + 2 ^ (64 - ls) * (2 ^ ls * top) := by rw [hB]; ring
+      rw [this, Nat.add_mul_div_left _ _ (two_pow_pos _)]; ring
+    · have h1 : l.length = 1 := by omega
+      obtain ⟨lo, e, b⟩ := val_top_split l hL hne
+      have b' : lo = 0 := by rw [h1] at b; simpa using b
+      have e' : val l = l.getD (l.length - 1) 0 := by rw [e, b', h1]; simp
+      rw [if_neg h2, e']
+      generalize l.getD (l.length - 1) 0 = top at *
+      generalize clz64 top = ls at *
+      rw [shiftZ_nonneg _ (by omega)]
+      simp only [Nat.zero_div, Nat.add_zero]
+      congr 2; omega
+  -- top·2^ls < B
+  have f1 : (l.getD (l.length - 1) 0) * 2 ^ clz64 (l.getD (l.length - 1) 0) < B := by
+    have k2 := @Nat.lt_log2_self (l.getD (l.length - 1) 0)
+    have k3 : (l.getD (l.length - 1) 0).log2 < 64 := (Nat.log2_lt tnz).mpr (by rw [← B_eq_two_pow]; exact tlt)
+    unfold clz64
+    generalize l.getD (l.length - 1) 0 = top at *
+    have : B = 2 ^ (top.log2 + 1) * 2 ^ (63 - top.log2) := by rw [← pow_add, B_eq_two_pow]; congr 1; omega
+    rw [this]; exact Nat.mul_lt_mul_of_pos_right k2 (two_pow_pos _)
+  generalize (if l.length ≥ 2 then l.getD (l.length - 2) 0 else 0) = m1 at *
+  generalize l.getD (l.length - 1) 0 = top at *
+  generalize clz64 top = ls at *
+  -- the masked low part
+  have f2 : ((m1 >>> (64 - ls)) &&& (if ls = 0 then 0 else B - 1)) = m1 / 2 ^ (64 - ls) ∧ m1 / 2 ^ (64 - ls) < 2 ^ ls := by
+    have lt : m1 / 2 ^ (64 - ls) < 2 ^ ls := by
+      rw [Nat.div_lt_iff_lt_mul (two_pow_pos _), ← pow_add]
+      have : ls + (64 - ls) = 64 := by omega
+      rw [this, ← B_eq_two_pow]; exact m1lt
+    refine ⟨?_, lt⟩
+    rw [Nat.shiftRight_eq_div_pow]
+    by_cases z : ls = 0
+    · subst z; rw [if_pos rfl, Nat.and_zero]; simp at lt; omega
+    · rw [if_neg z, B_eq_two_pow, Nat.and_two_pow_sub_one_eq_mod, Nat.mod_eq_of_lt]
+      have : 2 ^ ls ≤ 2 ^ 64 := Nat.pow_le_pow_right (by decide) (by omega)
+      omega
+  rw [f2.1, Nat.shiftLeft_eq, Nat.mod_eq_of_lt f1, ← Nat.shiftLeft_eq,
+    ← Nat.shiftLeft_add_eq_or_of_lt f2.2, Nat.shiftLeft_eq, key, shiftZ_shiftRight]
+  congr 1; omega
+
+/-! ### the specification `truncToDouble` by cases, and the field assembly -/
+
+theorem boolToNat_decide (p : Prop) [Decidable p] : boolToNat (decide p) = if p then 1 else 0 := by
+  by_cases h : p <;> simp [boolToNat, h]
+
+/-- `truncToDouble` spelled out: overflow, normal, denormal, underflow. -/
+theorem trunc_cases (x e : Int) (hx : x ≠ 0) :
+    (bitlen x.natAbs + e > 1024 → truncToDouble x e = mkBits (if x < 0 then 1 else 0) 2047 0) ∧
+    (-1021 ≤ bitlen x.natAbs + e → bitlen x.natAbs + e ≤ 1024 →
+      truncToDouble x e = mkBits (if x < 0 then 1 else 0) ((bitlen x.natAbs : Int) + e + 1022).toNat
+        (shiftZ x.natAbs (53 - (bitlen x.natAbs : Int)) - 2 ^ 52)) ∧
+    (-1073 ≤ bitlen x.natAbs + e → bitlen x.natAbs + e ≤ -1022 →
+      truncToDouble x e = mkBits (if x < 0 then 1 else 0) 0
+        (shiftZ x.natAbs (53 - (bitlen x.natAbs : Int)) >>> (-1021 - ((bitlen x.natAbs : Int) + e)).toNat)) ∧
+    (bitlen x.natAbs + e ≤ -1074 → truncToDouble x e = 0) := by
+  have hv : x.natAbs ≠ 0 := by omega
+  obtain ⟨t1, t2⟩ := top53_bounds hv
+  obtain ⟨_, bu⟩ := bitlen_bounds hv
+  have hL1 : 1 ≤ bitlen x.natAbs := by rw [bitlen_pos hv]; omega
+  unfold truncToDouble truncate53
+  dsimp only
+  rw [if_neg hv]
+  generalize x.natAbs = v at *
+  generalize hLdef : bitlen v = L at *
+  refine ⟨fun h => ?_, fun h1 h2 => ?_, fun h1 h2 => ?_, fun h => ?_⟩
+  · rw [if_pos h]; simp only [encode, boolToNat_decide]
+  · have hq : (if (L : Int) + e - 53 ≥ -1074 then (L : Int) + e - 53 else -1074) = (L : Int) + e - 53 := if_pos (by omega)
+    have : e - ((L : Int) + e - 53) = 53 - (L : Int) := by ring
+    rw [if_neg (by omega), hq, this, if_neg (by omega)]
+    simp only [encode, boolToNat_decide]
+    rw [if_neg (by omega)]
+    congr 2; omega
+  · have hq : (if (L : Int) + e - 53 ≥ -1074 then (L : Int) + e - 53 else -1074) = -1074 := if_neg (by omega)
+    rw [if_neg (by omega), hq]
+    have r1 : 1 ≤ (-1021 - ((L : Int) + e)).toNat := by omega
+    have r2 : (-1021 - ((L : Int) + e)).toNat ≤ 52 := by omega
+    have : e - (-1074) = (53 - (L : Int)) - ((-1021 - ((L : Int) + e)).toNat : Nat) := by omega
+    rw [this, ← shiftZ_shiftRight]
+    generalize (-1021 - ((L : Int) + e)).toNat = r at *
+    generalize shiftZ v (53 - (L : Int)) = m at *
+    rw [Nat.shiftRight_eq_div_pow]
+    have p1 : 2 ^ r ≤ 2 ^ 52 := Nat.pow_le_pow_right (by decide) r2
+    have p2 : 2 ≤ 2 ^ r := by
+      calc 2 = 2 ^ 1 := rfl
+        _ ≤ 2 ^ r := Nat.pow_le_pow_right (by decide) r1
+    have l1 : 1 ≤ m / 2 ^ r := by rw [Nat.le_div_iff_mul_le (two_pow_pos _)]; omega
+    have l2 : m / 2 ^ r < 2 ^ 52 := by
+      rw [Nat.div_lt_iff_lt_mul (two_pow_pos _)]
+      calc m < 2 ^ 53 := t2
+        _ = 2 ^ 52 * 2 := by norm_num
+        _ ≤ 2 ^ 52 * 2 ^ r := Nat.mul_le_mul_left _ p2
+    rw [if_neg (by omega)]
+    simp only [encode, boolToNat_decide]
+    rw [if_pos l2]
+  · have hq : (if (L : Int) + e - 53 ≥ -1074 then (L : Int) + e - 53 else -1074) = -1074 := if_neg (by omega)
+    rw [if_neg (by omega), hq]
+    have : shiftZ v (e - (-1074)) = 0 := by
+      rw [shiftZ_neg _ (by omega)]
+      apply Nat.div_eq_of_lt
+      calc v < 2 ^ L := bu
+        _ ≤ 2 ^ (-(e - (-1074))).toNat := Nat.pow_le_pow_right (by decide) (by omega)
+    rw [this, if_pos rfl]
+    simp [encode, mkBits, boolToNat]
+
+theorem assemble_inf (sign : Int) : assemble 0 1024 sign = mkBits (if sign < 0 then 1 else 0) 2047 0 := by
+  unfold assemble mkBits; simp
+
+theorem assemble_normal (m : Nat) (ex sign : Int) (h1 : 2 ^ 52 ≤ m) (h2 : m < 2 ^ 53) (e1 : -1022 ≤ ex) (e2 : ex ≤ 1023) :
+    assemble m ex sign = mkBits (if sign < 0 then 1 else 0) (ex + 1023).toNat (m - 2 ^ 52) := by
+  unfold assemble mkBits
+  dsimp only
+  rw [Nat.shiftRight_eq_div_pow]
+  have : ((ex + 1023) % 2048).toNat = (ex + 1023).toNat := by omega
+  rw [this]
+  have : m % 2 ^ 32 + m / 2 ^ 32 % 2 ^ 20 * 2 ^ 32 = m - 2 ^ 52 := by omega
+  rw [this]
+
+theorem assemble_denorm (m : Nat) (sign : Int) (h2 : m < 2 ^ 52) :
+    assemble m (-1023) sign = mkBits (if sign < 0 then 1 else 0) 0 m := by
+  unfold assemble mkBits
+  dsimp only
+  rw [Nat.shiftRight_eq_div_pow]
+  have : m % 2 ^ 32 + m / 2 ^ 32 % 2 ^ 20 * 2 ^ 32 = m := by omega
+  rw [this]; simp
+
+/-! ### mpn_get_d = truncation (all sizes, all exponents of a `long`) -/
+
+theorem mpn_get_d_eq (ptr : List Nat) (sign exp : Int) (hL : Limbs ptr) (ht : TopNZ ptr)
+    (hsz : ptr.length < 2 ^ 57) (he1 : LONG_MIN ≤ exp) (he2 : exp ≤ LONG_MAX) :
+    mpn_get_d ptr sign exp = truncToDouble (if sign < 0 then -(val ptr : Int) else (val ptr : Int)) exp := by
+  by_cases hne : ptr = []
+  · subst hne
+    simp [mpn_get_d, truncToDouble, truncate53, encode, mkBits, boolToNat]
+  · have hn : 1 ≤ ptr.length := by cases ptr with | nil => exact absurd rfl hne | cons _ _ => simp
+    have hv : 1 ≤ val ptr := le_trans (Bpow_pos _) (val_ge_of_top ptr hne ht)
+    have hx : (if sign < 0 then -(val ptr : Int) else (val ptr : Int)) ≠ 0 := by split <;> omega
+    have hxa : (if sign < 0 then -(val ptr : Int) else (val ptr : Int)).natAbs = val ptr := by split <;> omega
+    have sgeq : (if (if sign < 0 then -(val ptr : Int) else (val ptr : Int)) < 0 then 1 else 0 : Nat) = (if sign < 0 then 1 else 0) := by
+      by_cases h : sign < 0
+      · rw [if_pos h, if_pos h, if_pos (by omega)]
+      · rw [if_neg h, if_neg h, if_neg (by omega)]
+    obtain ⟨c1, c2, c3, c4⟩ := trunc_cases _ exp hx
+    rw [hxa] at c1 c2 c3 c4
+    rw [sgeq] at c1 c2 c3
+    obtain ⟨hbl, hls⟩ := bitlen_val hL hne ht
+    have m53 := getd_m53 hL hne ht
+    obtain ⟨t1, t2⟩ := top53_bounds (v := val ptr) (by omega)
+    unfold mpn_get_d
+    dsimp only
+    rw [if_neg (by omega : ¬ ptr.length = 0), m53]
+    have c0 : (64 * ptr.length) % 2 ^ 64 = 64 * ptr.length := Nat.mod_eq_of_lt (by omega)
+    have c0' : toU64 (LONG_MAX - exp) = (LONG_MAX - exp).toNat := by unfold toU64 LONG_MAX LONG_MIN at *; omega
+    rw [c0, c0']
+    unfold LONG_MAX LONG_MIN at *
+    generalize clz64 (ptr.getD (ptr.length - 1) 0) = ls at *
+    generalize hm : shiftZ (val ptr) (53 - (bitlen (val ptr) : Int)) = m at *
+    generalize val ptr = v at *
+    generalize truncToDouble (if sign < 0 then -(v : Int) else (v : Int)) exp = R at *
+    rw [hbl] at c1 c2 c3 c4
+    by_cases hov : 64 * ptr.length > ((2 : Int) ^ 63 - 1 - exp).toNat
+    · rw [if_pos hov, assemble_inf, c1 (by omega)]
+    · rw [if_neg hov]
+      by_cases h1 : exp + 64 * (ptr.length : Int) - ((ls : Int) + 1) ≥ 1024
+      · rw [if_pos h1, assemble_inf, c1 (by omega)]
+      · rw [if_neg h1]
+        by_cases h2 : exp + 64 * (ptr.length : Int) - ((ls : Int) + 1) ≤ -1023
+        · rw [if_pos h2]
+          by_cases h3 : exp + 64 * (ptr.length : Int) - ((ls : Int) + 1) ≤ -1022 - 53
+          · rw [if_pos h3, c4 (by omega)]
+          · rw [if_neg h3, c3 (by omega) (by omega)]
+            have : (-1022 - (exp + 64 * (ptr.length : Int) - ((ls : Int) + 1))).toNat =
+                (-1021 - (((64 * ptr.length - ls : Nat) : Int) + exp)).toNat := by omega
+            rw [this]
+            generalize (-1021 - (((64 * ptr.length - ls : Nat) : Int) + exp)).toNat = r at *
+            have r1 : 1 ≤ r := by omega
+            apply assemble_denorm
+            rw [Nat.shiftRight_eq_div_pow, Nat.div_lt_iff_lt_mul (two_pow_pos _)]
+            have p2 : 2 ≤ 2 ^ r := by
+              calc 2 = 2 ^ 1 := rfl
+                _ ≤ 2 ^ r := Nat.pow_le_pow_right (by decide) r1
+            calc m < 2 ^ 53 := t2
+              _ = 2 ^ 52 * 2 := by norm_num
+              _ ≤ 2 ^ 52 * 2 ^ r := Nat.mul_le_mul_left _ p2
+        · rw [if_neg h2, c2 (by omega) (by omega), assemble_normal m _ sign t1 t2 (by omega) (by omega)]
+          congr 2; omega
+
+/-! ### decoding the specification -/
+
+theorem mkBits_fields (sg e m : Nat) (hs : sg ≤ 1) (he : e < 2048) (hm : m < 2 ^ 52) :
+    sigOf (mkBits sg e m) = sg ∧ expOf (mkBits sg e m) = e ∧ manOf (mkBits sg e m) = m := by
+  unfold sigOf expOf manOf mkBits; omega
+
+/-- `truncate53` spelled out: overflow, normal, denormal, underflow (same case split as `trunc_cases`). -/
+theorem truncate53_cases (x e : Int) (hx : x ≠ 0) :
+    (bitlen x.natAbs + e > 1024 → truncate53 x e = .inf (decide (x < 0))) ∧
+    (-1021 ≤ bitlen x.natAbs + e → bitlen x.natAbs + e ≤ 1024 →
+      truncate53 x e = .fin (decide (x < 0)) (shiftZ x.natAbs (53 - (bitlen x.natAbs : Int))) ((bitlen x.natAbs : Int) + e - 53)) ∧
+    (-1073 ≤ bitlen x.natAbs + e → bitlen x.natAbs + e ≤ -1022 →
+      truncate53 x e = .fin (decide (x < 0))
+        (shiftZ x.natAbs (53 - (bitlen x.natAbs : Int)) >>> (-1021 - ((bitlen x.natAbs : Int) + e)).toNat) (-1074) ∧
+      1 ≤ shiftZ x.natAbs (53 - (bitlen x.natAbs : Int)) >>> (-1021 - ((bitlen x.natAbs : Int) + e)).toNat ∧
+      shiftZ x.natAbs (53 - (bitlen x.natAbs : Int)) >>> (-1021 - ((bitlen x.natAbs : Int) + e)).toNat < 2 ^ 52 ∧
+      shiftZ x.natAbs (53 - (bitlen x.natAbs : Int)) >>> (-1021 - ((bitlen x.natAbs : Int) + e)).toNat = shiftZ x.natAbs (e + 1074)) ∧
+    (bitlen x.natAbs + e ≤ -1074 → truncate53 x e = .fin false 0 (-1074)) := by
+  have hv : x.natAbs ≠ 0 := by omega
+  obtain ⟨t1, t2⟩ := top53_bounds hv
+  obtain ⟨_, bu⟩ := bitlen_bounds hv
+  have hL1 : 1 ≤ bitlen x.natAbs := by rw [bitlen_pos hv]; omega
+  unfold truncate53
+  dsimp only
+  rw [if_neg hv]
+  generalize x.natAbs = v at *
+  generalize hLdef : bitlen v = L at *
+  refine ⟨fun h => ?_, fun h1 h2 => ?_, fun h1 h2 => ?_, fun h => ?_⟩
+  · rw [if_pos h]
+  · have hq : (if (L : Int) + e - 53 ≥ -1074 then (L : Int) + e - 53 else -1074) = (L : Int) + e - 53 := if_pos (by omega)
+    have : e - ((L : Int) + e - 53) = 53 - (L : Int) := by ring
+    rw [if_neg (by omega), hq, this, if_neg (by omega)]
+  · have hq : (if (L : Int) + e - 53 ≥ -1074 then (L : Int) + e - 53 else -1074) = -1074 := if_neg (by omega)
+    rw [if_neg (by omega), hq]
+    have r1 : 1 ≤ (-1021 - ((L : Int) + e)).toNat := by omega
+    have r2 : (-1021 - ((L : Int) + e)).toNat ≤ 52 := by omega
+    have this : e - (-1074) = (53 - (L : Int)) - ((-1021 - ((L : Int) + e)).toNat : Nat) := by omega
+    have e2 : e + 1074 = (53 - (L : Int)) - ((-1021 - ((L : Int) + e)).toNat : Nat) := by omega
+    rw [this, e2, ← shiftZ_shiftRight]
+    generalize (-1021 - ((L : Int) + e)).toNat = r at *
+    generalize shiftZ v (53 - (L : Int)) = m at *
+    rw [Nat.shiftRight_eq_div_pow]
+    have p1 : 2 ^ r ≤ 2 ^ 52 := Nat.pow_le_pow_right (by decide) r2
+    have p2 : 2 ≤ 2 ^ r := by
+      calc 2 = 2 ^ 1 := rfl
+        _ ≤ 2 ^ r := Nat.pow_le_pow_right (by decide) r1
+    have l1 : 1 ≤ m / 2 ^ r := by rw [Nat.le_div_iff_mul_le (two_pow_pos _)]; omega
+    have l2 : m / 2 ^ r < 2 ^ 52 := by
+      rw [Nat.div_lt_iff_lt_mul (two_pow_pos _)]
+      calc m < 2 ^ 53 := t2
+        _ = 2 ^ 52 * 2 := by norm_num
+        _ ≤ 2 ^ 52 * 2 ^ r := Nat.mul_le_mul_left _ p2
+    rw [if_neg (by omega)]
+    exact ⟨rfl, l1, l2, rfl⟩
+  · have hq : (if (L : Int) + e - 53 ≥ -1074 then (L : Int) + e - 53 else -1074) = -1074 := if_neg (by omega)
+    rw [if_neg (by omega), hq]
+    have : shiftZ v (e - (-1074)) = 0 := by
+      rw [shiftZ_neg _ (by omega)]
+      apply Nat.div_eq_of_lt
+      calc v < 2 ^ L := bu
+        _ ≤ 2 ^ (-(e - (-1074))).toNat := Nat.pow_le_pow_right (by decide) (by omega)
+    rw [this, if_pos rfl]
+
+/-- decoding the bit pattern of the specification gives back the specification -/
+theorem decode_truncToDouble (x e : Int) : decode (truncToDouble x e) = truncate53 x e := by
+  by_cases hx : x = 0
+  · subst hx; simp [truncToDouble, truncate53, encode, mkBits, boolToNat]; decide
+  · obtain ⟨c1, c2, c3, c4⟩ := trunc_cases x e hx
+    obtain ⟨d1, d2, d3, d4⟩ := truncate53_cases x e hx
+    obtain ⟨t1, t2⟩ := top53_bounds (v := x.natAbs) (by omega)
+    have sg1 : (if x < 0 then 1 else 0 : Nat) ≤ 1 := by split <;> omega
+    have sgd : decide ((if x < 0 then 1 else 0 : Nat) = 1) = decide (x < 0) := by
+      by_cases h : x < 0 <;> simp [h]
+    rcases lt_or_ge 1024 ((bitlen x.natAbs : Int) + e) with h | h
+    · rw [c1 h, d1 h]
+      obtain ⟨f1, f2, f3⟩ := mkBits_fields _ 2047 0 sg1 (by norm_num) (by norm_num)
+      unfold decode; rw [f1, f2, f3, sgd]; simp
+    · rcases le_or_gt (-1021) ((bitlen x.natAbs : Int) + e) with g | g
+      · rw [c2 g h, d2 g h]
+        generalize shiftZ x.natAbs (53 - (bitlen x.natAbs : Int)) = m at *
+        generalize (bitlen x.natAbs : Int) + e = E at *
+        obtain ⟨f1, f2, f3⟩ := mkBits_fields _ (E + 1022).toNat (m - 2 ^ 52) sg1 (by omega) (by omega)
+        have hb : 2 ^ 52 + (m - 2 ^ 52) = m := by omega
+        have hc : (((E + 1022).toNat : Nat) : Int) - 1075 = E - 53 := by omega
+        unfold decode; rw [f1, f2, f3, sgd, if_neg (by omega), if_neg (by omega), hb, hc]
+      · rcases le_or_gt (-1073) ((bitlen x.natAbs : Int) + e) with k | k
+        · obtain ⟨dd, l1, l2, _⟩ := d3 k (by omega)
+          rw [c3 k (by omega), dd]
+          generalize shiftZ x.natAbs (53 - (bitlen x.natAbs : Int)) >>> (-1021 - ((bitlen x.natAbs : Int) + e)).toNat = m at *
+          obtain ⟨f1, f2, f3⟩ := mkBits_fields _ 0 m sg1 (by norm_num) l2
+          unfold decode; rw [f1, f2, f3, sgd]; simp
+        · rw [c4 (by omega), d4 (by omega)]; decide
+
+/-- `shiftZ` is the floor of the scaled value: exact for k ≥ 0, and for k < 0 the unique m with
+    m·2^(-k) ≤ v < (m+1)·2^(-k). -/
+theorem shiftZ_floor (v : Nat) (k : Int) :
+    (0 ≤ k → shiftZ v k = v * 2 ^ k.toNat) ∧
+    (k < 0 → shiftZ v k * 2 ^ (-k).toNat ≤ v ∧ v < (shiftZ v k + 1) * 2 ^ (-k).toNat) := by
+  refine ⟨fun h => shiftZ_nonneg v h, fun h => ?_⟩
+  rw [shiftZ_neg v h]
+  have p := two_pow_pos (-k).toNat
+  generalize 2 ^ (-k).toNat = P at *
+  constructor
+  · exact Nat.div_mul_le_self v P
+  · have := Nat.lt_mul_div_succ v p; rw [Nat.mul_comm]; exact this
+
 end Mpir.Conv
